@@ -635,22 +635,6 @@ Proof.
     + apply Hnotin. rewrite Hin. apply in_map. exact Hn'.
 Qed.
 
-(* a pass changes nothing once every name is found under its sanitised form *)
-Lemma build_keys_go_noop : forall raw keys i,
-  (forall n, In n raw -> In (class_name n) (map fst keys)) -> build_keys_go keys i raw = keys.
-Proof.
-  induction raw as [|n r IH]; intros keys i H; [reflexivity|]. cbn [build_keys_go].
-  assert (E : mem_str (class_name n) (map fst keys) = true) by (apply mem_str_In, H; left; reflexivity).
-  rewrite E, orb_true_r. apply IH. intros n' Hn'. apply H. right. exact Hn'.
-Qed.
-
-Lemma build_passes_noop : forall k raw keys,
-  (forall n, In n raw -> In (class_name n) (map fst keys)) -> build_passes k keys raw = keys.
-Proof.
-  induction k as [|k IH]; intros raw keys H; [reflexivity|]. cbn [build_passes].
-  rewrite build_keys_go_noop by exact H. apply IH, H.
-Qed.
-
 (* F20k / F20m excluded: every component schema is registered exactly once, under its class name, holding its own content *)
 Theorem build_keys_partial : forall raw, guard_F20k raw = true -> guard_F20m raw = true ->
   build_keys raw = Some (combine (map class_name raw) (seq 0 (length raw))).
@@ -667,13 +651,8 @@ Proof.
     - apply str_eqb_eq in Gs. rewrite <- Gs. exact E. }
   assert (Hk : map fst (combine (map class_name raw) (seq 0 (length raw))) = map class_name raw)
     by (apply map_fst_combine; rewrite map_length, seq_length; reflexivity).
-  assert (Hp : build_passes (length raw) [] raw = combine (map class_name raw) (seq 0 (length raw))).
-  { assert (Hl : length raw = O \/ exists k, length raw = S k) by (destruct (length raw); eauto).
-    destruct Hl as [Hl|[k Hl]].
-    - destruct raw; [reflexivity | discriminate Hl].
-    - rewrite Hl at 1. cbn [build_passes].
-      rewrite (build_keys_go_spec raw [] 0 Hid Gm Hx) by (intros n _; split; intros []). cbn [app].
-      apply build_passes_noop. intros n Hn. rewrite Hk. apply in_map. exact Hn. }
+  assert (Hp : build_keys_go [] 0 raw = combine (map class_name raw) (seq 0 (length raw))).
+  { rewrite (build_keys_go_spec raw [] 0 Hid Gm Hx) by (intros n _; split; intros []). reflexivity. }
   rewrite Hp, Hk.
   replace (forallb _ raw) with true; [reflexivity|]. symmetry. apply forallb_forall. intros n Hn.
   apply orb_true_iff. right. apply mem_str_In. apply in_map. exact Hn.
@@ -698,9 +677,10 @@ Qed.
 Lemma refuted_F20m : guard_F20k [w_foo_bar; w_FooBar] = true /\ guard_F20m [w_foo_bar; w_FooBar] = false
   /\ build_keys [w_foo_bar; w_FooBar] = Some [(w_FooBar, 0%nat)].
 Proof. repeat split; vm_compute; reflexivity. Qed.
-(* a document with a second schema: before the fix a_b is registered twice (since F02d's extra passes), with it once *)
+(* a document with a second schema: before the __post_init__ fix it fails like a_b alone (ae5b020: absent names are
+   never re-parsed), with the fix a_b is registered once under AB *)
 Lemma F20k_second_schema :
-  build_keys [w_a_b; w_Pet] = Some [([65;98], 0%nat); (w_Pet, 1%nat); (w_a_b, 0%nat)]
+  build_keys [w_a_b; w_Pet] = None
   \/ build_keys [w_a_b; w_Pet] = Some [([65;66], 0%nat); (w_Pet, 1%nat)].
 Proof. first [ left; vm_compute; reflexivity | right; vm_compute; reflexivity ]. Qed.
 Lemma schemas_guard_nonvacuous : guard_F20k [w_foo_bar; w_none; w_1st] = true /\ guard_F20m [w_foo_bar; w_none; w_1st] = true.
